@@ -14,8 +14,13 @@ struct-tag grammar, `ToExpr` / `ToBiscuit` conversions).
 
 This is the DOCUMENTED grammar. Where the implementation is more lenient (arguments
 without commas, `.length(x)`, comments) the model rejects; where it deviates from the
-document (negative integers, leading zeros, keyword-prefixed identifiers, backslashes in
-strings) the correspondence check keeps those input classes in separate labelled streams.
+document (keyword-prefixed identifiers, backslashes in strings) the correspondence check
+keeps those input classes in separate labelled streams.
+
+Integer literals are "any base-10 int64" (GRAMMAR.md): an optional sign `-` — the Operator
+token `-` followed by an Int token, blanks between them allowed — and digits, leading zeros
+dropped.  `PTerm.negInt ds` is the signed literal; the sign is taken only where a TERM
+starts (`parseAtomTerm`), so `$x -5 > 0` is a subtraction and `1 - -5`, `1--5` subtract `-5`.
 -/
 import BiscuitModel.Model.Symbols
 
@@ -211,6 +216,7 @@ inductive PTerm
   | param (n : String)
   | var (n : String)
   | int (digits : List Char)
+  | negInt (digits : List Char)   -- `-` digits: the sign is part of the literal (grammar.go `@("-"? Int)`)
   | str (s : List Char)
   | date (s : List Char)
   | bytes (hexDigits : List Char)
@@ -266,8 +272,12 @@ def expectPunct (c : Char) : P Unit
   | .punct d :: rest => if c == d then some ((), rest) else none
   | _ => none
 
-/-- A term that is not a set. -/
+/-- A term that is not a set.  An integer literal may carry a sign: the Operator token `-`
+directly followed (blanks are elided by the lexer) by an Int token is ONE literal
+(grammar.go: `Integer *int64 "| @(\"-\"? Int)"`).  The sign is only looked for here, where a
+term starts; after a complete operand a `-` is the binary operator (`addLoop`). -/
 def parseAtomTerm : P PTerm
+  | .op "-" :: .int s :: r => some (.negInt s, r)
   | .param n :: r => some (.param n, r)
   | .var n :: r => some (.var n, r)
   | .hex d :: r => some (.bytes d, r)
@@ -604,11 +614,13 @@ def unixOfDate (s : List Char) : Option Int :=
 
 abbrev Params := List (String × Term Val)
 
-/-- Non-set literal or parameter. Integers: base-10, must fit in int64. -/
+/-- Non-set literal or parameter. Integers: base-10, must fit in int64
+(`-2^63 ≤ v < 2^63`; `-0` is `0`). -/
 def denoteAtomTerm (ps : Params) : PTerm → Option (Term Val)
   | .param n => (ps.find? (·.1 == n)).map (·.2)
   | .var n => some (.var (strBytes n))
   | .int ds => let n := natOfDigits ds; if n < 2^63 then some (.const (.atom (.int n))) else none
+  | .negInt ds => let n := natOfDigits ds; if n ≤ 2^63 then some (.const (.atom (.int (-(n : Int))))) else none
   | .str s => some (.const (.atom (.str (strBytes (String.ofList s)))))
   | .date s => (unixOfDate s).map fun u => .const (.atom (.date (if u ≥ 0 then u.toNat else (u + 2^64).toNat)))
   | .bytes ds => if ds.length % 2 = 0 then some (.const (.atom (.bytes (bytesOfHex ds)))) else none
